@@ -303,4 +303,27 @@ pub assume_specification [bytes::Bytes::copy_from_slice] (data: &[u8]) -> bytes:
 pub assume_specification [BytesMut::freeze] (b: BytesMut) -> bytes::Bytes;
 pub assume_specification<'a> [<BytesMut as From<&'a str>>::from] (s: &'a str) -> (r: BytesMut)
     ensures bm_view(&r) == vstd::utf8::encode_utf8(s@);
+
+// ---- helpers for the typed decoders of mpd_client
+/// index of the first occurrence of a char
+pub open spec fn char_first(s: Seq<char>, c: char) -> Option<int>
+    decreases s.len()
+{ if s.len() == 0 { None } else if s[0] == c { Some(0int) } else { match char_first(s.skip(1), c) { Some(i) => Some(i + 1), None => None } } }
+/// N10 wrapper for `str::split_once` with a char delimiter (generic `Pattern`): splits at the FIRST occurrence
+#[verifier::external_body]
+pub fn vx_split_once_char<'a>(s: &'a String, c: char) -> (r: Option<(&'a str, &'a str)>)
+    ensures match char_first(s@, c) {
+        Some(i) => r matches Some((a, b)) && a@ == s@.subrange(0, i) && b@ == s@.subrange(i + 1, s@.len() as int),
+        None => r is None }
+{ s.split_once(c) }
+#[verifier::external_body]
+pub fn vx_str_split_once_char<'a>(s: &'a str, c: char) -> (r: Option<(&'a str, &'a str)>)
+    ensures match char_first(s@, c) {
+        Some(i) => r matches Some((a, b)) && a@ == s@.subrange(0, i) && b@ == s@.subrange(i + 1, s@.len() as int),
+        None => r is None }
+{ s.split_once(c) }
+/// `Duration::ZERO` (an associated const of an external type)
+pub uninterp spec fn dur_zero() -> std::time::Duration;
+#[verifier::external_body]
+pub fn vx_duration_zero() -> (r: std::time::Duration) ensures r == dur_zero() { std::time::Duration::ZERO }
 }
